@@ -85,13 +85,17 @@ create_key (conf_t *confp)
                     confp->key_path);
         }
     }
-    fd = open (confp->key_path, O_WRONLY | O_CREAT | O_EXCL, 0600);
-    if (fd == -1) {
+    /*  Derive the key before creating the file: nothing may be logged while
+     *    the file is open since it could have been given the descriptor of a
+     *    closed stderr.
+     */
+    rv = _create_key_secret (buf, confp->key_num_bytes);
+    if (rv == -1) {
         log_errno (EMUNGE_SNAFU, LOG_ERR, "Failed to create \"%s\"",
                 confp->key_path);
     }
-    rv = _create_key_secret (buf, confp->key_num_bytes);
-    if (rv == -1) {
+    fd = open (confp->key_path, O_WRONLY | O_CREAT | O_EXCL, 0600);
+    if (fd == -1) {
         log_errno (EMUNGE_SNAFU, LOG_ERR, "Failed to create \"%s\"",
                 confp->key_path);
     }
